@@ -1,27 +1,82 @@
 /- C03 — no phantom definitions; "possibly undefined" exact; never-bound names flagged.
-   Statements only; proofs in Den/Lemmas*.lean. -/
-import SuppModel.Den.Lemmas2
+   Statements only; proofs in Den/Lemmas*.lean (`real`: every syntactic path of the fragment is an execution;
+   `exec_good`: every execution is covered by the closed form of supp's tables). -/
+import SuppModel.Den.Lemmas4
 namespace SuppModel.Props.C03
 open SuppModel.Den
 
-/-- the full-strength statement: on the C03 fragment every alternative supp lists for `x` at read `r` that does not
-    come from the entry table is realised by an execution, and an alternative inherited from the entry table is
-    realised from every entry state that realises it -/
-def C03_precise_stmt : Prop :=
-  ∀ (ks : List Ident) (s : Stmt) (r : RId) (x : Ident) (T F : Tbl) (v : Option Site),
-    inC03 s = true → r ∉ nestedReads s → x ∉ exNames s → v ∈ (at_ ks s r T F).get x →
-      (∀ σ : State, ∃ σr, Reach s σ r σr ∧ σr x = v) ∨
-      (v ∈ T.get x ∧ ∀ σ : State, σ x = v → ∃ σr, Reach s σ r σr ∧ σr x = v)
-
-/-- proved part 1 (origin): every alternative supp lists at `r` is either produced by a binding event of `s` that lies
-    on a syntactic path to `r` (`genAt`) or inherited from the entry table along a path that does not rebind `x` -/
+/-- origin: every alternative supp lists at `r` is either produced by a binding event of `s` that lies on a syntactic
+    path to `r` (`genAt`) or inherited from the entry table along a path that does not rebind `x` -/
 theorem C03_origin (ks : List Ident) (s : Stmt) (r : RId) (x : Ident) (T F : Tbl) (v : Option Site)
     (hown : r ∉ nestedReads s) (h : v ∈ (at_ ks s r T F).get x) :
     genAt s r x v ∨ (passAt s r x ∧ v ∈ T.get x) :=
   (at_normal ks s r T F x v hown).1 h
 
-/-- proved part 2: "possibly undefined" is never invented — `none` is listed only if the entry table lists it and some
-    syntactic path to `r` does not bind `x` -/
+/-- C03, no phantom definitions (full strength on the C03 fragment; `x` not an except-clause name of `s`): every
+    alternative `v` (a definition `some d`, or `none` = "possibly undefined") supp lists for `x` at read `r` is realised:
+    either from EVERY entry state some execution reaches `r` with `x` holding `v` (the alternative is produced by `s`),
+    or `v` is inherited from the entry table and from every entry state in which `x` holds `v` some execution reaches
+    `r` with `x` still holding `v`. -/
+theorem C03_precise (ks : List Ident) (s : Stmt) (r : RId) (x : Ident) (T F : Tbl) (v : Option Site)
+    (hfrag : inC03 s = true) (hown : r ∉ nestedReads s) (hx : x ∉ exNames s)
+    (h : v ∈ (at_ ks s r T F).get x) :
+    (∀ σ : State, ∃ σr, Reach s σ r σr ∧ σr x = v) ∨
+    (v ∈ T.get x ∧ ∀ σ : State, σ x = v → ∃ σr, Reach s σ r σr ∧ σr x = v) := by
+  have hr := ((real x s).1 hfrag hx).2.2
+  rcases C03_origin ks s r x T F v hown h with hg | ⟨hp, ht⟩
+  · exact .inl fun σ => hr r σ v (.inl hg)
+  · exact .inr ⟨ht, fun σ e => hr r σ v (.inr ⟨hp, e⟩)⟩
+
+/-- C03, exactness: let `S` be a non-empty set of entry states that the entry table `T` describes exactly for `x`
+    (every state of `S` holds one of `T`'s alternatives, every alternative is held by a state of `S`).  Then supp's
+    alternatives for `x` at `r` are EXACTLY the values `x` holds when some execution from `S` evaluates `r` —
+    definitions and "unbound" alike. -/
+theorem C03_exact (ks : List Ident) (s : Stmt) (r : RId) (x : Ident) (T F : Tbl) (S : State → Prop)
+    (hfrag : inC03 s = true) (hown : r ∉ nestedReads s) (hx : x ∉ exNames s)
+    (hne : ∃ σ, S σ) (hS1 : ∀ σ, S σ → σ x ∈ T.get x) (hS2 : ∀ v, v ∈ T.get x → ∃ σ, S σ ∧ σ x = v)
+    (v : Option Site) :
+    v ∈ (at_ ks s r T F).get x ↔ ∃ σ σr, S σ ∧ Reach s σ r σr ∧ σr x = v := by
+  constructor
+  · intro h
+    rcases C03_precise ks s r x T F v hfrag hown hx h with h1 | ⟨ht, h2⟩
+    · obtain ⟨σ, hs⟩ := hne
+      obtain ⟨σr, hr, e⟩ := h1 σ
+      exact ⟨σ, σr, hs, hr, e⟩
+    · obtain ⟨σ, hs, e⟩ := hS2 v ht
+      obtain ⟨σr, hr, e'⟩ := h2 σ e
+      exact ⟨σ, σr, hs, hr, e'⟩
+  · rintro ⟨σ, σr, hs, hreach, e⟩
+    rw [at_normal ks s r T F x v hown]
+    rcases (exec_good false true x hreach).1 hfrag (.inr hx) with ⟨h, _⟩ | ⟨r', h, hst⟩
+    · cases h
+    · cases h
+      rcases hst v (by simp) e with h | h | ⟨h1, h2⟩
+      · rw [(late_false r x s).1 hfrag] at h; cases h
+      · exact .inl h
+      · exact .inr ⟨h1, h2 ▸ hS1 σ hs⟩
+
+/-- "possibly undefined" is listed exactly when some execution reaches the read with the name unbound -/
+theorem C03_possibly_undefined (ks : List Ident) (s : Stmt) (r : RId) (x : Ident) (T F : Tbl) (S : State → Prop)
+    (hfrag : inC03 s = true) (hown : r ∉ nestedReads s) (hx : x ∉ exNames s)
+    (hne : ∃ σ, S σ) (hS1 : ∀ σ, S σ → σ x ∈ T.get x) (hS2 : ∀ v, v ∈ T.get x → ∃ σ, S σ ∧ σ x = v) :
+    none ∈ (at_ ks s r T F).get x ↔ ∃ σ σr, S σ ∧ Reach s σ r σr ∧ σr x = none :=
+  C03_exact ks s r x T F S hfrag hown hx hne hS1 hS2 none
+
+/-- never-bound names: supp lists no definition at all for `x` at `r` (the key is absent or only "undefined":
+    lint reports E02) exactly when no execution reaches `r` with `x` bound -/
+theorem C03_undefined (ks : List Ident) (s : Stmt) (r : RId) (x : Ident) (T F : Tbl) (S : State → Prop)
+    (hfrag : inC03 s = true) (hown : r ∉ nestedReads s) (hx : x ∉ exNames s)
+    (hne : ∃ σ, S σ) (hS1 : ∀ σ, S σ → σ x ∈ T.get x) (hS2 : ∀ v, v ∈ T.get x → ∃ σ, S σ ∧ σ x = v) :
+    (∀ d, some d ∉ (at_ ks s r T F).get x) ↔ ¬ ∃ σ σr d, S σ ∧ Reach s σ r σr ∧ σr x = some d := by
+  constructor
+  · rintro h ⟨σ, σr, d, hs, hr, e⟩
+    exact h d ((C03_exact ks s r x T F S hfrag hown hx hne hS1 hS2 (some d)).2 ⟨σ, σr, hs, hr, e⟩)
+  · intro h d hd
+    obtain ⟨σ, σr, hs, hr, e⟩ := (C03_exact ks s r x T F S hfrag hown hx hne hS1 hS2 (some d)).1 hd
+    exact h ⟨σ, σr, d, hs, hr, e⟩
+
+/-- "possibly undefined" is never invented: `none` is listed only if the entry table lists it and some syntactic path
+    to `r` does not bind `x` -/
 theorem C03_undefined_only_from_entry (ks : List Ident) (s : Stmt) (r : RId) (x : Ident) (T F : Tbl)
     (hown : r ∉ nestedReads s) (h : none ∈ (at_ ks s r T F).get x) :
     passAt s r x ∧ none ∈ T.get x := by
@@ -34,17 +89,17 @@ where
   genAt_some (s : Stmt) (r : RId) (x : Ident) : ¬ genAt s r x none := by
     induction s <;> simp_all [genAt, gen_some]
 
-/-- proved part 3 (never-bound names): if no binding event for `x` lies before `r` and the entry table has no binding
-    for `x`, supp's answer has no definition at all (`lint` then reports E02) -/
-theorem C03_undefined (ks : List Ident) (s : Stmt) (r : RId) (x : Ident) (T F : Tbl) (d : Site)
-    (hown : r ∉ nestedReads s) (hT : ∀ d', some d' ∉ T.get x) (hg : ¬ genAt s r x (some d)) :
-    some d ∉ (at_ ks s r T F).get x := by
-  intro h
-  rcases (at_normal ks s r T F x (some d) hown).1 h with h | h
-  · exact hg h
-  · exact hT d h.2
+/-! non-vacuity: a try whose body may raise at both ends, a handler, and a read after it; module entry (everything
+    unbound) as the set of entry states -/
+def exTry : Stmt :=
+  .seq (.tryx true true (.bind "a" 1) (.hcons .skip .skip (.bind "a" 2) .hnil) .skip) (.read "a" 5)
 
-example : inC03 (.tryx true true (.bind "a" 1) (.hcons .skip .skip (.read "a" 3) .hnil) .skip) = true := by decide
+example : inC03 exTry = true := by decide
+example : (at_ [] exTry 5 Tbl.empty Tbl.empty).get "a" = [some 1, some 2] := by decide
+example : ∀ v, v ∈ (at_ [] exTry 5 Tbl.empty Tbl.empty).get "a" ↔
+    ∃ σ σr, σ = State.init ∧ Reach exTry σ 5 σr ∧ σr "a" = v :=
+  fun v => C03_exact [] exTry 5 "a" Tbl.empty Tbl.empty (· = State.init) (by decide) (by decide) (by decide)
+    ⟨_, rfl⟩ (by rintro σ rfl; simp [State.init, Tbl.empty]) (by intro v hv; exact ⟨_, rfl, by simpa [Tbl.empty, State.init, eq_comm] using hv⟩) v
 example : (at_ [] (.seq (.ite .skip (.bind "a" 1) .skip) (.read "a" 2)) 2 Tbl.empty Tbl.empty).get "a" = [some 1, none] := by
   decide
 
